@@ -270,6 +270,44 @@ def run(F, R, tier):
         R.ob("C03-c", "every pending npm specifier is settled (module stub or error entry) on every path", not bad,
              "a path through an npm resolution loop leaves the item without a module slot: the specifier would be missing from the graph without an error", where(lp))
     R.floor("C03-c npm item loops", n_loops, 3)
+    # a healthy npm entry is only recorded after the resolver was asked about that very item
+    for lp in [n for n in nr["_nodes"] if n["k"] == "For"]:
+        binds = pat_bindings(lp["pat"])
+        if not binds or not any(tyc(F, b_, "graph::PendingNpmResolutionItem") for b_ in binds):
+            continue
+        adds = [n for n in walk(lp["body"]) if callee_matches(n, ["NpmSpecifierResolver::add_req_ref_for_item"])]
+        if not adds:
+            continue
+        rcalls = [n for n in walk(lp["body"]) if callee_matches(n, ["NpmResolver::resolve_pkg_reqs"])]
+        if rcalls:
+            fl = Flow(F, lambda n: n in rcalls, probe=lambda n: n in adds)
+            fl.run(lp["body"], False)
+            ok = bool(fl.probes) and all(st is True for _, st in fl.probes)
+        else:
+            outer = [n for n in nr["_nodes"] if callee_matches(n, ["NpmResolver::resolve_pkg_reqs"]) and may_reach(F, n, lp)]
+            ok = bool(outer)
+        R.ob("C03-c", "an npm specifier is recorded as resolved only after the resolver answered for it in this pass", ok,
+             "a path records an npm specifier as a healthy module without a preceding resolve_pkg_reqs call for it: a failed requirement would be reported for the first specifier only and its siblings would look loaded", where(lp))
+    # every entry written while draining deferred content loads belongs to the completed item
+    hc = F.body("graph::Builder::handle_jsr_registry_pending_content_loads")
+    lp = [n for n in hc["_nodes"] if n["k"] == "While"]
+    if lp and lp[0]["cond"].get("k") == "Let":
+        item = pat_bindings(lp[0]["cond"]["pat"])[0]
+        n_w = 0
+        for n in walk(lp[0]["body"]):
+            if n.get("k") == "MethodCall" and n["name"] in ("insert", "get_mut") and peel(n["recv"]).get("field") == "module_slots":
+                n_w += 1
+                key = peel_value(n["args"][0])
+                ok = key.get("k") == "Field" and key["field"] == "specifier" and peel(key["e"]).get("lid") == item["lid"]
+                if not ok and key.get("res") == "local":
+                    for g in guards_at(F, n, stop_at=lp[0]):
+                        if g.kind == "cond" and g.pol and g.node.get("k") == "Binary" and g.node["op"] == "==":
+                            l, r = peel_value(g.node["l"]), peel_value(g.node["r"])
+                            if l.get("lid") == key.get("lid") and r.get("field") == "specifier" and peel(r["e"]).get("lid") == item["lid"]:
+                                ok = True
+                R.ob("C03-c", "a failed / completed content load is recorded under the specifier it was issued for", ok,
+                     "module_slots.%s(%s, ..) while draining content loads: the error (or source) would land on another specifier, the affected module keeps an empty source without an error" % (n["name"], expr_text(n["args"][0])), where(n))
+        R.floor("C03-c slot writes in the content-load drain", n_w, 5)
     fg = F.body("graph::NpmSpecifierResolver::fill_graph")
     keep = [n for n in fg["_nodes"] if n.get("k") == "MethodCall" and n["name"] in ("or_insert", "or_insert_with")]
     R.ob("C03-c", "npm results never overwrite an entry the graph already has", len(keep) == 2 and not [n for n in fg["_nodes"] if n.get("k") == "MethodCall" and n["name"] == "insert" and peel(n["recv"]).get("field") in ("module_slots", "redirects")],
